@@ -230,10 +230,16 @@ class Check:
         if cross is None:
             cross = ['cvc5', 'z3-old'] if self.tier == 'thorough' else []
         for solver in cross:
-            cargs = [(o.smt2, solver, min(self.cap, 300)) for o in pending]
-            with ThreadPool(min(jobs, len(pending))) as pool:
+            # the second / third opinion is asked for obligations the primary solver decided within 20 s, with a 60 s cap: re-deciding the
+            # heavy Pippenger steps with cvc5 at 300 s each kept a thorough run in this pass for hours (the skipped ones are counted)
+            cheap = [o for o in pending if o.result in ('sat', 'unsat') and (o.seconds or 0) < 20]
+            self.extra['cross_solver_skipped_heavy'] = self.extra.get('cross_solver_skipped_heavy', 0) + (len(pending) - len(cheap))
+            if not cheap:
+                continue
+            cargs = [(o.smt2, solver, min(self.cap, 60)) for o in cheap]
+            with ThreadPool(min(jobs, len(cheap))) as pool:
                 cres = pool.map(_cross, cargs, chunksize=1)
-            for o, r in zip(pending, cres):
+            for o, r in zip(cheap, cres):
                 o.cross = o.cross or {}
                 o.cross[solver] = r
         self.extra['discharge_wall_s'] = round(self.extra.get('discharge_wall_s', 0) + time.time() - t0, 2)
